@@ -34,6 +34,15 @@ class Prop(PropBase):
         'pypyr.cache.filecache (keyed by resolved path) is not modelled: shown irrelevant by '
         'idempotence of add_sys_path; config.shortcuts is empty (config.init not run by the API)',
         'process cwd equals config.cwd (checked in every observation)',
+        'Tie B (tools/py2coq_c19.py -> Gen/GenC19.v, proved equal to the model in Proofs/GenC19Proofs.v): '
+        'the translator drops docstrings, logger calls and asserts; reads the try/open/get_pipeline_yaml '
+        'block of load_pipeline_from_file as "payload of the file at path" and file_cache.get(k, lambda: X) '
+        'as X; does not translate `if context is None`, the running of the steps, Cache.get itself, or the '
+        'parts of get_arguments that do not feed loader / py_dir / parent; relies on two tables (pype key -> '
+        'field of pype_opts, PipelineInfo attribute -> field of pinfo) and leaves pathlib / add_sys_path / '
+        'config.cwd, pipelines_subdir as Section variables that the proofs instantiate with the model\'s '
+        'is_abs, resolve, joinpath, dirname, basename, string equality (samefile), add_sys_path; the equality '
+        'for get_pipeline_path is stated for environments whose built-in dir is <repo>/pypyr/pipelines',
     ]
 
     def generate(self, rng, n, tier):
